@@ -21,7 +21,7 @@ def nontrivial(l):
 
 def run(ctx):
     return core.simple_check(
-        ctx, jobs,
+        ctx, jobs, distribution=core.field_distribution(("B ", "K ", "L "), ["cap", "cols", "pushes"], numeric=()),
         rule="2-4 OS threads run seeded programs of push / extend (batches crossing the 32/96/224 bucket boundaries; iterators reporting too many or too few "
              "items) / get / count / snapshot on one vector (capacity 0/1/33/1024, 1-3 columns) under a seeded scheduler that serialises the threads at the "
              "cfg-gated yield points in front of every atomic operation (uniform choices with occasional long runs of one thread); the executed (thread, site) "
